@@ -258,7 +258,16 @@ def rule_init_complete(ctx, fl):
     n = lib.init_covers(ctx, 'C06.6', vi, 'myth_barrier_init_body', ['myth_barrier_wait_body'], 'barrier')
     lib.sleep_container_init_complete(ctx, 'C06.6', fl, 'stack')
     ctx.ob('C06.6', 'fields read by the operations enumerated', n >= 3, 'read set of the operations', loc='src/myth_sync_func.h', detail=str(n))
-    ctx.floor('C06.6', 5)
+    # the participant count the waits compare against is the caller's (hand mutant r6), and the arrival counter starts at 0
+    bi = ctx.need_fn(vi, 'myth_barrier_init_body')
+    np_ = bi.param_named('n_threads')
+    sn = bi.stores_to('myth_barrier.n_threads')
+    ctx.ob('C06.6', 'init stores the participant count it was given', len(sn) == 1 and np_ is not None and lib.same_value(bi, sn[0].ops[0], np_),
+           'barrier->n_threads = n_threads: any other value releases a phase early or never', loc=(sn[0].loc if sn else bi.loc))
+    from ..ir import const_int as _ci
+    s0 = bi.stores_to('myth_barrier.state')
+    ctx.ob('C06.6', 'init starts the arrival counter at 0', len(s0) == 1 and _ci(s0[0].ops[0]) == 0, 'barrier->state = 0', loc=(s0[0].loc if s0 else bi.loc))
+    ctx.floor('C06.6', 7)
 
 
 def run(ctx):
@@ -290,6 +299,8 @@ def run(ctx):
 SYNC = 'src/myth_sync_func.h'
 SQ = 'src/myth_sleep_queue_func.h'
 MUTANTS = [
+    {'name': 'barrier_init stores one participant fewer than requested (hand mutant r6)', 'expect': 'C06.6',
+     'edits': [('src/myth_sync_func.h', "  barrier->n_threads = n_threads;\n  if (attr) {\n    barrier->attr = *attr;", "  barrier->n_threads = n_threads - 1;\n  if (attr) {\n    barrier->attr = *attr;")]},
     {'name': 'native myth_barrier_wait drops the serial-thread result', 'expect': 'C06.7',
      'edits': [('src/myth_if_native.c', "  return myth_barrier_wait_body(barrier);", "  myth_barrier_wait_body(barrier);\n  return 0;")]},
     {'name': 'stack wake chain: tail advances only for the first sleeper', 'expect': 'C06.2',
